@@ -123,6 +123,11 @@ impl<H: Hasher> BatchMerkleProof<H> {
             return Err(MerkleTreeError::TooManyLeafIndexes(MAX_PATHS, indexes.len()));
         }
 
+        // a tree cannot have more than usize::BITS - 1 levels
+        if self.depth as u32 >= usize::BITS {
+            return Err(MerkleTreeError::InvalidProof);
+        }
+
         // the proof must contain exactly one leaf per index
         if indexes.len() != self.leaves.len() {
             return Err(MerkleTreeError::InvalidProof);
@@ -267,6 +272,10 @@ impl<H: Hasher> BatchMerkleProof<H> {
             return Err(MerkleTreeError::TooManyLeafIndexes(MAX_PATHS, indexes.len()));
         }
         if indexes.len() != self.leaves.len() {
+            return Err(MerkleTreeError::InvalidProof);
+        }
+        // a tree cannot have more than usize::BITS - 1 levels
+        if self.depth as u32 >= usize::BITS {
             return Err(MerkleTreeError::InvalidProof);
         }
 
